@@ -193,3 +193,11 @@ package log
 //@   at after writer ghost ran = true
 //@   at return assert ran && werr == nil
 //@   loop 0 invariant true
+
+// only identical plain lines are duplicates of each other; a trace submission never is
+// (its collected lines would be dropped with it)
+//@ func (*logLine).Equal
+//@   requires ll != nil && ol != nil
+//@   pure
+//@   ensures r0 ==> ll.tracer == nil && ol.tracer == nil && ll.msg == ol.msg && ll.file == ol.file && ll.line == ol.line && ll.level == ol.level
+//@   ensures ll.tracer == nil && ol.tracer == nil && ll.msg == ol.msg && ll.file == ol.file && ll.line == ol.line && ll.level == ol.level ==> r0
